@@ -56,16 +56,58 @@ def returned_set(fn):
     return None
 
 
-def keymaterial_table(prog):
-    """(public?, algorithm member) -> class name, from PubKeyV4.pkalg_int."""
-    ci = prog.cls('pgpy.packet.packets', 'PubKeyV4')
-    f = ci.methods.get('pkalg_int')
+def _keymaterial_eval(prog):
+    """Evaluate the `pkalg` setter of the v4 key packet classes at every member of PubKeyAlgorithm with the checker's own
+    finite-point evaluator (sa.ceval; nothing of the repository runs) and read off the class of the object it leaves in
+    `keymaterial`.  How the setter spells its dispatch - a dict literal keyed by (public?, algorithm), a class-level table of
+    (public class, private class) pairs behind a helper, an if-chain - is irrelevant: only the class chosen at each point counts."""
+    from . import ceval
+    pub = prog.cls('pgpy.packet.packets', 'PubKeyV4')
+    priv = prog.cls('pgpy.packet.packets', 'PrivKeyV4')
+    enum = prog.cls('pgpy.constants', 'PubKeyAlgorithm')
+    if pub is None or priv is None or enum is None:
+        raise AnalysisError('PubKeyV4 / PrivKeyV4 / PubKeyAlgorithm vanished')
+    f = pub.find_method('pkalg_int')
     if f is None:
         raise AnalysisError('PubKeyV4.pkalg_int vanished')
-    t = table(f.node)
+    members = sorted((n, v) for n, v in enum.enum_members().items() if isinstance(v, int) and not isinstance(v, bool))
+    if len(members) < 8:
+        raise AnalysisError('PubKeyAlgorithm has only %d integer members' % len(members))
+    ev = ceval.Evaluator(prog)
     out = {}
-    for k, v in t.items():
-        if not (isinstance(k, tuple) and len(k) == 2 and isinstance(k[0], bool)):
-            raise AnalysisError('unexpected key %r in key-material table' % (k,))
-        out[(k[0], k[1].split('.')[-1])] = v
+    for public, ci in ((True, pub), (False, priv)):
+        g = ci.find_method('pkalg_int')
+        if g is None:
+            raise AnalysisError('%s.pkalg_int vanished' % ci.name)
+        for name, val in members:
+            o = ceval.Obj(ci, {})
+            try:
+                ev.reset()
+                ev.call(g, o, (val,))
+            except (ceval.NoEval, ceval.Raised, ceval.Diverged) as e:
+                raise AnalysisError('%s.pkalg setter cannot be evaluated at %s: %s' % (ci.name, name, e))
+            km = o.attrs.get('keymaterial')
+            if not isinstance(km, ceval.Obj):
+                raise AnalysisError('%s.pkalg setter leaves no key material object at %s (%r)' % (ci.name, name, km))
+            out[(public, name)] = km.cls.name
+    return f, out
+
+
+def keymaterial_fallbacks(prog):
+    """{public?: class name} - the container the `pkalg` setter falls back to for an algorithm it has no key material class
+    for (read at PubKeyAlgorithm.Invalid, the enum's own marker for that case)."""
+    _, full = _keymaterial_eval(prog)
+    if (True, 'Invalid') not in full or (False, 'Invalid') not in full:
+        raise AnalysisError('PubKeyAlgorithm.Invalid vanished: cannot tell the fallback key material class')
+    return {True: full[(True, 'Invalid')], False: full[(False, 'Invalid')]}
+
+
+def keymaterial_table(prog):
+    """(public?, algorithm member) -> class name: the key material class the PubKeyV4 / PrivKeyV4 `pkalg` setter chooses for
+    each algorithm it implements (the fallback container for unimplemented algorithms is left out, see keymaterial_fallbacks)."""
+    f, full = _keymaterial_eval(prog)
+    fb = keymaterial_fallbacks(prog)
+    out = {k: v for k, v in full.items() if v != fb[k[0]]}
+    if len(out) < 12:
+        raise AnalysisError('key-material dispatch implements only %d (public?, algorithm) points' % len(out))
     return f, out
